@@ -12,6 +12,7 @@
   All statements are re-exports of `PomerolModel/Spec/Blocks.lean` (fully proved).
 -/
 import PomerolModel.Spec.Blocks
+import PomerolModel.Spec.HamSpectrumSpec
 
 namespace Pomerol.Properties.C03
 open Matrix Polynomial Pomerol.Spec
@@ -100,5 +101,87 @@ example :
     (Matrix.of fun (_ _ : Unit) => (3 : ℂ)) * (1 : Matrix Unit Unit ℂ)
       = (1 : Matrix Unit Unit ℂ) * diagonal (fun _ => (((3 : ℂ).re : ℝ) : ℂ)) :=
   one_by_one_block 3 (by simp)
+
+/-! ### The spectrum bookkeeping of `Hamiltonian` follows the blocks
+
+`Model/HamSpectrum.lean` is an executable model of `Hamiltonian::computeGroundEnergy`
+(per-block `Eigenvalues.minCoeff()`, then `LEV.minCoeff()`), `Hamiltonian::getEigenValues` (copy of
+the block spectra one after the other) and `Hamiltonian::getEigenValue(state)` (block number and inner
+position of the state, then the entry of the eigenvalue vector), with explicit errors where the source
+has undefined behaviour (`minCoeff()` of an empty vector, reads past the end after `reduce`) or
+throws.  `parts` = the eigenvalue vectors of the blocks in block order; `blkOf`, `blocks` = the tables
+of `StatesClassification` (`Model/Symm.lean`). -/
+
+section Bookkeeping
+open Pomerol.Model Pomerol.Model.HamSpectrum Pomerol.Spec.HamSpectrumSpec
+
+/-- **The ground energy is the minimum over all blocks.**  With at least one block and no empty
+block, `computeGroundEnergy` is defined, its result is an eigenvalue of some block, and it is `≤`
+every eigenvalue of every block.  Holds for ANY order of the eigenvalues inside the blocks.  (With no
+block, or with an empty block, the source calls `minCoeff()` on an empty vector:
+`HamSpectrumSpec.ground_energy_no_blocks`, `ground_energy_empty_block`.) -/
+theorem ground_energy_is_minimum_over_blocks (parts : List (List ℝ)) (hne : parts ≠ [])
+    (hblk : ∀ ev ∈ parts, ev ≠ []) :
+    ∃ g, groundEnergy parts = some g ∧ (∃ ev ∈ parts, g ∈ ev) ∧
+      ∀ ev ∈ parts, ∀ e ∈ ev, g ≤ e :=
+  ground_energy_is_minimum parts hne hblk
+
+/-- **`getEigenValues` is the union of the block spectra**: the copy loop produces the concatenation
+of the eigenvalue vectors in block order, i.e. as a multiset the sum of the block spectra (every
+eigenvalue as often as it occurs); and this is the returned vector when the block sizes add up to
+the number of states. -/
+theorem eigenvalues_are_union_of_blocks (parts : List (List ℝ)) :
+    ((allEigenValues parts : List ℝ) : Multiset ℝ)
+        = (parts.map fun ev => ((ev : List ℝ) : Multiset ℝ)).sum ∧
+    ∀ nstates, (parts.map List.length).sum = nstates →
+      getEigenValues nstates parts = .ok parts.flatten :=
+  ⟨all_eigenvalues_is_concatenation parts, fun n h => getEigenValues_eq n parts h⟩
+
+/-- **The eigenvalue of a state is looked up in its block at its position.**  If the tables say
+"state `s` is in block `b`" and "its inner index is `i`" (`Symm.innerState`, the model of
+`getInnerState`), and part `b` has an `i`-th eigenvalue `e`, then `getEigenValue(s) = e`. -/
+theorem eigenvalue_lookup_by_state (blkOf : List ℕ) (blocks : List (List ℕ))
+    (parts : List (List ℝ)) (state b i : ℕ) (ev : List ℝ) (e : ℝ)
+    (hb : blkOf[state]? = some b) (hi : Symm.innerState blkOf blocks state = some i)
+    (hp : parts[b]? = some ev) (he : ev[i]? = some e) :
+    eigenValueOfState blkOf blocks parts state = .ok e :=
+  eigenvalue_lookup blkOf blocks parts state b i ev e hb hi hp he
+
+/-- Conversely the address (block `b`, position `i`) reaches the `i`-th eigenvalue of block `b`: with
+tables consistent with the lists of states (C07) and no state listed twice, the state listed at
+position `i` of block `b` has inner index `i` and `getEigenValue` returns entry `i` of part `b`. -/
+theorem eigenvalue_lookup_by_address (blkOf : List ℕ) (blocks : List (List ℕ))
+    (parts : List (List ℝ)) (hcls : ∀ b s, s ∈ blocks.getD b [] → blkOf[s]? = some b)
+    (b : Fin blocks.length) (hnd : (blocks.get b).Nodup) (i : ℕ) (hi : i < (blocks.get b).length)
+    (ev : List ℝ) (hp : parts[(b : ℕ)]? = some ev) (hlen : i < ev.length) :
+    Symm.innerState blkOf blocks ((blocks.get b)[i]) = some i ∧
+    eigenValueOfState blkOf blocks parts ((blocks.get b)[i]) = .ok ev[i] :=
+  eigenvalue_lookup_address blkOf blocks parts hcls b hnd i hi ev hp hlen
+
+/-- Concrete instance: three blocks with spectra `(2,5)`, `(−1,3)`, `(0)`: the ground energy is `−1`. -/
+example : groundEnergy [[(2 : ℝ), 5], [-1, 3], [0]] = some (-1) := by
+  norm_num [groundEnergy, computeGroundEnergy, levLoop, getMinimumEigenvalue, minCoeff,
+    Except.toOption]
+
+/-- Concrete instance (2 modes, blocks `{00}`, `{01,10}`, `{11}`): the state `10` (bit mask 2) is in
+block 1 at position 1, so its eigenvalue is the second entry of the spectrum `(−1, 1)` of block 1. -/
+example : eigenValueOfState [0, 1, 1, 2] [[0], [1, 2], [3]] [[(0 : ℝ)], [-1, 1], [2]] 2 = .ok 1 :=
+  eigenvalue_lookup_by_state _ _ _ 2 1 1 [-1, 1] 1 rfl (by decide) rfl rfl
+
+/-- The same runs evaluated on exact integers; and the undefined cases: no block, an empty block, a
+state outside the table. -/
+example : groundEnergy [[(2 : Int), 5], [-1, 3], [0]] = some (-1) ∧
+    groundEnergy ([] : List (List Int)) = none ∧
+    groundEnergy [[(2 : Int), 5], []] = none ∧
+    getEigenValues 4 [[(0 : Int)], [-1, 1], [2]] = .ok [0, -1, 1, 2] ∧
+    getEigenValues 4 [[(0 : Int)], [-1], [2]] = .error .uninitialised ∧
+    eigenValueOfState [0, 1, 1, 2] [[0], [1, 2], [3]] [[(0 : Int)], [-1, 1], [2]] 2 = .ok 1 ∧
+    eigenValueOfState [0, 1, 1, 2] [[0], [1, 2], [3]] [[(0 : Int)], [-1], [2]] 2
+      = .error .outOfRange ∧
+    eigenValueOfState [0, 1, 1, 2] [[0], [1, 2], [3]] [[(0 : Int)], [-1, 1], [2]] 7
+      = .error .wrongState := by
+  decide
+
+end Bookkeeping
 
 end Pomerol.Properties.C03
